@@ -35,8 +35,12 @@ def cell_block(dims, nodes, cell, perm_id, mirrored=False):
     return {"cell": list(cell), "perm": perm_id, "nodes": ids, "pts": [list(nodes[n]) for n in ids], "chops": []}
 
 
-def gen_assembly(rng, max_dims=(3, 3, 2), jitter=0.12, fill=None, max_blocks=18, rotate=True):
+def gen_assembly(rng, max_dims=(3, 3, 2), jitter=0.12, fill=None, max_blocks=18, rotate=True, long_rows=0.0):
     dims = [rng.randint(1, max_dims[a]) for a in range(3)]
+    if rng.random() < long_rows:
+        # long chains: a count has to travel several hops
+        dims = rng.choice([[5, 1, 1], [6, 1, 1], [4, 2, 1], [5, 2, 1], [4, 1, 2]])
+        fill = 1.0 if fill is None else fill
     rng.shuffle(dims) if rng.random() < 0.3 else None
     spacing = [rng.uniform(0.6, 2.0) for _ in range(3)]
     origin = [rng.uniform(-3, 3) for _ in range(3)]
